@@ -37,3 +37,18 @@ package olric
 //@   requires #wired: db != nil && db.rt != nil && db.rt.config != nil && conn != nil
 //@   ensures #gate [C05]: result ==> !db.rt.below_quorum()
 //@   ensures #refuse [C05]: db.rt.below_quorum() ==> !result
+
+// ---------------------------------------------------------------------------------------------------
+// C15: the cluster client translates the option set of a write exactly like a member that forwards it.
+//@ func (dm *ClusterDMap) writePutCommand(c *dmap.PutConfig, key string, value []byte) *protocol.Put
+//@   props C15 C08
+//@   flag termination
+//@   requires #args: dm != nil && c != nil && 0 <= c.PX && 0 <= c.PXAT
+//@   ensures #fresh: result != nil && fresh(result)
+//@   ensures #payload [C15]: result.DMap == dm.name && result.Key == key && result.Value == value
+//@   ensures #condition [C15 C08]: result.NX == c.HasNX && result.XX == (c.HasXX && !c.HasNX)
+//@   ensures #expiry_px [C15 C08]: result.PX == ite(!c.HasEX && c.HasPX, c.PX / 1000000, 0)
+//@   ensures #expiry_pxat [C15]: result.PXAT == ite(!c.HasEX && !c.HasPX && !c.HasEXAT && c.HasPXAT, c.PXAT / 1000000, 0)
+//@   ensures #expiry_ex [C15]: result.EX == ite(c.HasEX, float64(c.EX) / float64(1000000000), float64(0))
+//@   ensures #expiry_exat [C15]: result.EXAT == ite(!c.HasEX && !c.HasPX && c.HasEXAT, float64(c.EXAT) / float64(1000000000), float64(0))
+//@   modifies nothing
